@@ -327,25 +327,105 @@ def exhaustive(g, cap, thorough):
             g.add(setup(cap, x, y) + ["rfind obj=0 ov=cstr s=%s" % L(y)], t + "rfind/default")
             if len(y) == 1:
                 g.add(setup(cap, x, y) + ["rfind obj=0 ov=ch ch=%d s=%s" % (y[0], L(y))], t + "rfind/default")
-    # ---- replace (overwrite-only family, known finding when the lengths differ)
+    # ---- replace (overwrite-only family, known finding when the replacement length differs from min(count, size()-pos));
+    #      counts beyond size()-pos (size()-pos+1 and npos) make the overwrite run past size(): same known class
+    overflow_kept = 0
     for x in X(True):
         for y in ys:
             lit = "s=%s" % L(y)
             for p in range(len(x) + 2):
-                for c in list(range(len(x) - p + 1)) if p <= len(x) else [0]:
-                    variants = [("ov=str pos=%d count=%d" % (p, c), y), ("ov=cstr pos=%d count=%d %s" % (p, c, lit), cstr_of(y)),
-                                ("ov=itstr first=%d last=%d" % (p, p + c), y), ("ov=itcstr first=%d last=%d %s" % (p, p + c, lit), cstr_of(y)),
-                                ("ov=itfill first=%d last=%d count2=%d ch=120" % (p, p + c, c), [120] * c),
-                                ("ov=itfill first=%d last=%d count2=%d ch=120" % (p, p + c, c + 1), [120] * (c + 1))]
-                    for n in range(len(y) + 1):
-                        variants.append(("ov=ptrn pos=%d count=%d %s n=%d" % (p, c, lit, n), y[:n]))
-                        variants.append(("ov=itptrn first=%d last=%d %s n=%d" % (p, p + c, lit, n), y[:n]))
-                    for p2 in range(len(y) + 1):
-                        for c2 in range(len(y) - p2 + 1):
-                            variants.append(("ov=str5 pos=%d count=%d pos2=%d count2=%d" % (p, c, p2, c2), y[p2:p2 + c2]))
+                inside = list(range(len(x) - p + 1)) if p <= len(x) else [0]
+                beyond = [len(x) - p + 1, "npos"] if p <= len(x) else []
+                for c in inside + beyond:
+                    if c in inside:
+                        variants = [("ov=str pos=%d count=%d" % (p, c), y), ("ov=cstr pos=%d count=%d %s" % (p, c, lit), cstr_of(y)),
+                                    ("ov=itstr first=%d last=%d" % (p, p + c), y), ("ov=itcstr first=%d last=%d %s" % (p, p + c, lit), cstr_of(y)),
+                                    ("ov=itfill first=%d last=%d count2=%d ch=120" % (p, p + c, c), [120] * c),
+                                    ("ov=itfill first=%d last=%d count2=%d ch=120" % (p, p + c, c + 1), [120] * (c + 1))]
+                        for n in range(len(y) + 1):
+                            variants.append(("ov=ptrn pos=%d count=%d %s n=%d" % (p, c, lit, n), y[:n]))
+                            variants.append(("ov=itptrn first=%d last=%d %s n=%d" % (p, p + c, lit, n), y[:n]))
+                        for p2 in range(len(y) + 1):
+                            for c2 in range(len(y) - p2 + 1):
+                                variants.append(("ov=str5 pos=%d count=%d pos2=%d count2=%d" % (p, c, p2, c2), y[p2:p2 + c2]))
+                    else:
+                        variants = [("ov=str pos=%d count=%s" % (p, c), y), ("ov=cstr pos=%d count=%s %s" % (p, c, lit), cstr_of(y)),
+                                    ("ov=ptrn pos=%d count=%s %s n=%d" % (p, c, lit, len(y)), y),
+                                    ("ov=str5 pos=%d count=%s pos2=0 count2=%d" % (p, c, len(y)), y)]
                     for sel, repl in variants:
-                        kc = " kc=1" if (p <= len(x) and len(repl) != c) else ""
-                        g.add(setup(cap, x, y) + ["replace obj=0 %s%s" % (sel, kc), "state obj=0"], t + "replace" + ("/known" if kc else ""))
+                        if c == "npos" and p + len(repl) > cap + 1:
+                            # the overwrite leaves the object (heap-buffer-overflow under ASan): keep two such cases per capacity
+                            # only, a sanitizer abort costs a process restart and lib.run_harness gives up after 40 per chunk
+                            if overflow_kept >= 2:
+                                continue
+                            overflow_kept += 1
+                        known = p <= len(x) and replace_known(len(x), p, c, len(repl))
+                        g.add(setup(cap, x, y) + ["replace obj=0 %s" % sel, "state obj=0"], t + "replace" + ("/known" if known else ""))
+
+
+def replace_known(size, pos, count, repl_len):
+    """the class of F-C04-replace-overwrites-only: the replacement does not have the length of the replaced range"""
+    c = 2 ** 64 - 1 if count == "npos" else count
+    return repl_len != min(c, size - pos)
+
+
+def _kv(line):
+    return dict(t.split("=", 1) for t in line.split(" ")[1:] if "=" in t)
+
+
+def _lst(txt):
+    txt = txt.strip("[]")
+    return [int(v) for v in txt.split(",")] if txt else []
+
+
+def replace_class(lines, k):
+    """Recompute, from the case text alone, whether the `replace` line k is in the known class.  Only prefixes made of
+    `new` / `assign ov=ptrn` / `state` / `raw` lines are understood (the exhaustive replace cases and the finding's witness);
+    anything else returns False, so a failing replace elsewhere is reported as a violation."""
+    cur = [[], []]
+    for ln in lines[:k]:
+        op = ln.split(" ")[0]
+        a = _kv(ln)
+        if op == "new":
+            cur = [[], []]
+        elif op == "assign" and a.get("ov") == "ptrn":
+            cur[int(a.get("obj", 0))] = _lst(a["s"])[: int(a["n"])]
+        elif op in ("state", "raw"):
+            pass
+        else:
+            return False
+    a = _kv(lines[k])
+    ov = a.get("ov", "")
+    obj = int(a.get("obj", 0))
+    x, o = cur[obj], cur[1 - obj]
+    num = lambda key, d=0: (2 ** 64 - 1 if a[key] == "npos" else int(a[key])) if key in a else d
+    if ov.startswith("it"):
+        f, la = num("first"), num("last")
+        if f > la or la > len(x):
+            return False
+        p, c = f, la - f
+    else:
+        p, c = num("pos"), num("count")
+        if p > len(x):
+            return False
+    if ov in ("str", "itstr"):
+        rl = len(o)
+    elif ov == "str5":
+        p2, c2 = num("pos2"), num("count2", 2 ** 64 - 1)
+        if p2 > len(o):
+            return False
+        rl = min(c2, len(o) - p2)
+    elif ov in ("ptrn", "itptrn"):
+        rl = num("n")
+        if rl > len(_lst(a.get("s", "[]"))):
+            return False
+    elif ov in ("cstr", "itcstr"):
+        rl = len(cstr_of(_lst(a.get("s", "[]"))))
+    elif ov == "itfill":
+        rl = num("count2")
+    else:
+        return False
+    return replace_known(len(x), p, c, rl)
 
 
 class Sim:
@@ -666,7 +746,7 @@ def classify(case, k, row):
     op = ln.split(" ")[0]
     if op == "rfind" and " pos=" not in ln:
         return "F-C04-rfind-default-pos"
-    if op == "replace" and " kc=1" in ln:
+    if op == "replace" and replace_class(case.lines, k):
         return "F-C04-replace-overwrites-only"
     return None
 
@@ -698,6 +778,9 @@ LEVEL_NOTE = ("Trusted: Lean kernel + propext/Classical.choice/Quot.sound; fidel
               "modelled and compared on every run but have no Lean theorem yet. The replace family (overwrites only) and the "
               "default pos of rfind are known findings (counterexample theorems; rfind_partial covers every call with a pos, replace_*_partial "
               "every replace whose replacement has the length of the replaced range, replace_overwrites says what the other calls with "
-              "count <= size()-pos do). replace with count > size()-pos (the overwrite runs past size(): "
-              "replace_breaks_terminator_counterexample) is neither explored by the generator nor covered by a positive theorem.")
-CORRESPONDENCE_ONLY = []
+              "count <= size()-pos do). replace with count > size()-pos (count = size()-pos+1 and npos are generated; when the replacement is "
+              "longer than size()-pos the overwrite runs past size(): replace_breaks_terminator_counterexample) is compared on every run "
+              "but has no positive theorem; on a line that hits a known finding only impl-vs-spec is evaluated (lib.evaluate stops at the "
+              "first relation that fails), so there the model's mirror of the defect is checked by the counterexample theorems only.")
+CORRESPONDENCE_ONLY = ["replace(pos, count, …) with count > size()-pos (wrapped end pointer of str_replace; part of the known finding "
+                       "F-C04-replace-overwrites-only when the lengths differ)"]
